@@ -2,8 +2,13 @@
 against the platform's strict parser, evutil_parse_sockaddr_port / evutil_format_sockaddr_port_ round trip.
 Generators and oracles are in harness/h_util.c; the oracle is the platform inet_pton."""
 from checks import generic
+import vlib
 
-RULE = ("inputs = IPv4 addresses (blocks of 65536 consecutive addresses, each formatted into buffers of 16, L+1, L and one rotating "
+# The harness allocates and frees many small exact-size blocks per evaluation; ASan's default 256 MB quarantine makes
+# every allocation touch fresh pages (7x slower).  16 MB still keeps a freed block poisoned for thousands of evaluations.
+ASAN_ENV = dict(ASAN_OPTIONS=vlib.sanitizer_env("asan")["ASAN_OPTIONS"] + ":quarantine_size_mb=16")
+
+RULE = ("inputs = IPv4 addresses (blocks of 65536 consecutive addresses, each formatted into buffers of 16, L+1, L and (1 address in 4) a rotating "
         "length; plus boundary-biased samples with every length 0..48), IPv6 addresses (all 256 zero-word masks x random words, "
         "v4-mapped/compatible/special forms; every buffer length 0..48 and 64), address strings (grammar of IPv4/IPv6 text incl. every "
         "'::' placement, leading zeros, v4 tails, plus structural and character mutations) parsed under both families, and "
@@ -12,7 +17,7 @@ RULE = ("inputs = IPv4 addresses (blocks of 65536 consecutive addresses, each fo
 REG = dict(category="exploration",
            text="Runtime differential monitor: evutil_inet_ntop output for every buffer length (exact-size heap buffers under ASan, canaries in "
                 "the -O2 enumeration) must be NULL or a terminated text that the platform inet_pton maps back to the address; evutil_inet_pton "
-                "must agree with the platform inet_pton (after the leading-zero allowance) on >=2e5 (quick) / 1e7 (thorough) generated and "
+                "must agree with the platform inet_pton (after the leading-zero allowance) on >=2e5 (quick) / 6e6 (thorough) generated and "
                 "mutated strings; parse_sockaddr_port/format round trip. Thorough enumerates all 2^32 IPv4 addresses; IPv6 and strings are sampled.",
            note="trusts glibc inet_pton as the strict parser; IPv6 space and string space are sampled (structured + random), not enumerated",
            technique="differential runtime oracle (platform inet_pton) + ASan exact-size buffers over generated inputs")
@@ -22,12 +27,12 @@ def steps(seed):
     off = (seed * 37) % 2048
     return [
         dict(flavor="plain", harness="h_util", args=["--mode", "ntop4", "--n1", 2048, "--n2", off], cases=dict(quick=32), tiers=("quick",)),
-        dict(flavor="plain", harness="h_util", args=["--mode", "ntop4"], cases=dict(thorough=65536), tiers=("thorough",), timeout=3000),
-        dict(flavor="asan", harness="h_util", args=["--mode", "ntop4s"], cases=dict(quick=200, thorough=4000), seed_off=1),
-        dict(flavor="asan", harness="h_util", args=["--mode", "ntop6"], cases=dict(quick=1000, thorough=30000), seed_off=2),
-        dict(flavor="plain", harness="h_util", args=["--mode", "ntop6"], cases=dict(quick=2200, thorough=100000), seed_off=3),
-        dict(flavor="asan", harness="h_util", args=["--mode", "pton"], cases=dict(quick=400, thorough=20000), seed_off=4),
-        dict(flavor="asan", harness="h_util", args=["--mode", "sap"], cases=dict(quick=300, thorough=15000), seed_off=5),
+        dict(flavor="plain", harness="h_util", args=["--mode", "ntop4"], cases=dict(thorough=65536), tiers=("thorough",), timeout=6000),
+        dict(flavor="asan", env=ASAN_ENV, harness="h_util", args=["--mode", "ntop4s"], cases=dict(quick=150, thorough=2000), seed_off=1),
+        dict(flavor="asan", env=ASAN_ENV, harness="h_util", args=["--mode", "ntop6"], cases=dict(quick=600, thorough=15000), seed_off=2),
+        dict(flavor="plain", harness="h_util", args=["--mode", "ntop6"], cases=dict(quick=2200, thorough=60000), seed_off=3),
+        dict(flavor="asan", env=ASAN_ENV, harness="h_util", args=["--mode", "pton"], cases=dict(quick=400, thorough=12000), seed_off=4),
+        dict(flavor="asan", env=ASAN_ENV, harness="h_util", args=["--mode", "sap"], cases=dict(quick=200, thorough=8000), seed_off=5),
     ]
 
 
